@@ -514,9 +514,29 @@ pub fn navigation(ctx: &Ctx, rng: &mut Rng, o: &mut Out) {
     // every UTF-8 lead-byte class boundary (DF, E0, E1, EF, F0, F4) before later nodes of the line
     Source { lang: SupportLang::JavaScript, name: "witness/utf8-classes.js".into(), text: "let s = 'ก'; foo(s)\nlet t = '\u{7FF}\u{800}\u{FFF}\u{1000}\u{FFFD}\u{10000}\u{10FFFF}'; bar(t);\n// ก ࠀ ก\nbaz('ก', \"ก\")".into() },
   ];
+  // documents embedded in a host file (`get_injections`: script and style of an HTML page): their
+  // nodes live in the host text, rows and columns are those of the FILE — also when the start tag
+  // of the element is spread over several lines or the page begins with multi-byte text
+  let mut injected: HashMap<String, ast_grep_core::AstGrep<ast_grep_core::StrDoc<SupportLang>>> = HashMap::new();
+  let pages = [
+    "<script\n  type=\"module\"\n  defer>\nalert(1)\nlet é = '中𝒳'; foo(é)\n</script>\n<script>alert(2)</script>\n",
+    "<!-- é 中 -->\n<html>\n<head>\n<style\n  media=\"print\"\n>\na { color: red }\n.b { margin: 0 }\n</style>\n</head>\n<body>\n<p>𝒳</p><script type=\"module\"\r\n>f(g(h(1)), g(2))</script>\n</body>\n</html>\n",
+    "<script>a = b = c</script><style>a{color:red}</style>",
+  ];
+  for (pi, page) in pages.iter().enumerate() {
+    let host = SupportLang::Html.ast_grep(page);
+    for (di, doc) in host.inner.get_injections(|s| s.parse::<SupportLang>().ok()).into_iter().enumerate() {
+      let name = format!("witness/injected-{pi}-{di}.html");
+      extra.push(Source { lang: *doc.lang(), name: name.clone(), text: page.to_string() });
+      injected.insert(name, ast_grep_core::AstGrep { inner: doc });
+    }
+  }
   extra.extend(sources);
   for src0 in extra.iter() {
     for v in 0..=variants {
+      if v > 0 && injected.contains_key(&src0.name) {
+        break;
+      }
       let text = if v == 0 {
         src0.text.clone()
       } else if v == 1 || v % 5 == 0 {
@@ -529,7 +549,10 @@ pub fn navigation(ctx: &Ctx, rng: &mut Rng, o: &mut Out) {
         corpus::mutate(&src0.text, rng)
       };
       let src = Source { lang: src0.lang, name: format!("{}#{v}", src0.name), text };
-      let grep = src.lang.ast_grep(&src.text);
+      let grep = match injected.get(&src0.name) {
+        Some(g) => g.clone(),
+        None => src.lang.ast_grep(&src.text),
+      };
       let root = grep.root();
       let tid = format!("V{ti}");
       ti += 1;
